@@ -1018,6 +1018,8 @@ fn s_auth(label: &str, v: IpAuthHeader) -> Subject {
     let w0 = s.w("IpAuthHeader::write", move |w| a.write(w).map_err(f));
     let a = v.clone();
     s.r("IpAuthHeader::read", w0, move |r| Ok(cmp(&IpAuthHeader::read(r).map_err(f)?, &a)));
+    let nh = v.next_header;
+    s.r_seek("Ipv6Header::skip_header_extension(auth)", w0, move |r| Ok(cmp(&Ipv6Header::skip_header_extension(r, AUTH).map_err(f)?, &nh)));
     let a = v.clone();
     let len = 12 + v.raw_icv().len();
     s.l("IpAuthHeader::read_limited", w0, vec![len], move |r| Ok(cmp(&IpAuthHeader::read_limited(r).map_err(f)?, &a)));
@@ -1035,6 +1037,10 @@ fn s_raw(label: &str, v: Ipv6RawExtHeader) -> Subject {
     let w0 = s.w("Ipv6RawExtHeader::write", move |w| a.write(w).map_err(f));
     let a = v.clone();
     s.r("Ipv6RawExtHeader::read", w0, move |r| Ok(cmp(&Ipv6RawExtHeader::read(r).map_err(f)?, &a)));
+    let nh = v.next_header;
+    for (name, first) in [("Ipv6Header::skip_header_extension(hop-by-hop)", IpNumber(0)), ("Ipv6Header::skip_header_extension(routing)", IpNumber(43)), ("Ipv6Header::skip_header_extension(dest options)", IpNumber(60))] {
+        s.r_seek(name, w0, move |r| Ok(cmp(&Ipv6Header::skip_header_extension(r, first).map_err(f)?, &nh)));
+    }
     let a = v.clone();
     let len = 2 + v.payload().len();
     s.l("Ipv6RawExtHeader::read_limited", w0, vec![len], move |r| Ok(cmp(&Ipv6RawExtHeader::read_limited(r).map_err(f)?, &a)));
@@ -1055,6 +1061,8 @@ fn s_frag(label: &str, v: Ipv6FragmentHeader) -> Subject {
     let w0 = s.w("Ipv6FragmentHeader::write", move |w| a.write(w).map_err(f));
     let a = v.clone();
     s.r("Ipv6FragmentHeader::read", w0, move |r| Ok(cmp(&Ipv6FragmentHeader::read(r).map_err(f)?, &a)));
+    let nh = v.next_header;
+    s.r_seek("Ipv6Header::skip_header_extension(fragment)", w0, move |r| Ok(cmp(&Ipv6Header::skip_header_extension(r, IpNumber(44)).map_err(f)?, &nh)));
     let a = v.clone();
     s.l("Ipv6FragmentHeader::read_limited", w0, vec![8], move |r| Ok(cmp(&Ipv6FragmentHeader::read_limited(r).map_err(f)?, &a)));
     s
@@ -1655,6 +1663,11 @@ fn enumerate(tier: Tier, p: &mut Pick) {
         p.add(move || s_raw(&format!("mixed payload={}", n), raw_val(UDP, 2, n, 0x41)));
     }
     p.add(|| s_raw("min: next=0 payload=6 x 0x00", Ipv6RawExtHeader::new_raw(IpNumber(0), &[0; 6]).unwrap()));
+    // headers that announce another extension header (the skipping helpers look at the announced number)
+    p.add(|| s_raw("next=hop-by-hop payload=22", raw_val(IpNumber(0), 2, 22, 0x41)));
+    p.add(|| s_raw("next=routing payload=14", raw_val(IpNumber(43), 2, 14, 0x41)));
+    p.add(|| s_auth("next=auth icv=8", auth_val(AUTH, 2, 8)));
+    p.add(|| s_frag("next=fragment", frag_val(IpNumber(44), 2)));
     for variant in 0..3u8 {
         p.add(move || s_frag(["min", "max", "mixed"][variant as usize], frag_val(if variant == 1 { IpNumber(255) } else { UDP }, variant)));
     }
